@@ -48,6 +48,9 @@ def check(run):
             from . import C10 as _C10a
             b102 = run.borrow("C10", why="a rejected load must leave the generic selector stores as they were")
             run.guard("C17.via.C10.2.decode-before-mutate", cfg, lambda: _C10a.rule_atomic(b102, F, cfg))
+        from . import C01 as _C01e
+        be = run.borrow("C01", why="every generic cosmetic rule of the set reaches the cache: a generic `##.x` is not a copy of `site.*##.x`")
+        run.guard("C17.via.C01.9.entry-points", cfg, lambda: _C01e.rule_entry_points(be, F, cfg))
 
 
 def _store_of(f, t):
